@@ -31,7 +31,10 @@ Shapes == {"unit_struct", "tuple0", "tuple1", "tuple1_unit", "tuple2", "named0",
            "enum_tuple", "enum_named", "enum_mixed", "union", "generic_struct", "generic_enum", "raw_names",
            \* raw identifiers as the names of field-less variants, of a struct and its fields, of a newtype
            "raw_unit_enum", "raw_struct", "raw_newtype"}
-Positions == {"none", "item", "variant", "field"}
+\* "field_pair": the first AND the second field carry an attribute each (two bodies): the derives that read all
+\* fields' attributes together (which marks may be mixed) have code only this reaches
+Positions == {"none", "item", "variant", "field", "field_pair"}
+PairBodies == {"bare", "ident", "word_skip", "word_forward", "type_list"}
 Bodies == {"bare", "empty_parens", "ident", "two_idents", "unknown_ident", "int_literal", "string_literal",
            "eq_string", "nested_list", "nested_literal", "legacy_types_int", "legacy_fmt", "path", "not_wrapped",
            "type_list", "unit_type", "tuple_type", "ref_list", "duplicate_attr", "trailing_comma", "fmt_literal", "fmt_bad_literal",
@@ -47,4 +50,5 @@ HasPosition(shape, pos) ==
       [] pos = "item" -> TRUE
       [] pos = "variant" -> shape \in {"enum_unit", "enum_tuple", "enum_named", "enum_mixed", "generic_enum", "raw_names", "raw_unit_enum"}
       [] pos = "field" -> shape \notin {"unit_struct", "tuple0", "named0", "enum_empty", "enum_unit", "raw_unit_enum"}
+      [] pos = "field_pair" -> shape \in {"tuple2", "named2", "enum_mixed", "raw_struct", "union"}
 =============================================================================
